@@ -201,7 +201,7 @@ func init() {
 
 func lapackProp(self, other, what string) *property {
 	return &property{
-		explanation: "Decides structural necessary conditions of " + self + " on the lapack/gonum routines anchored by it (and shared auxiliaries), for every path and both workspace modes: ARGS.query — with lwork == -1 the only stores are to work[0] and the only calls are queries/scalar helpers ('a workspace query touches nothing else'); OKFLOW.use/.report — the ok/unconverged status of every callee (a singular pivot from Dgetrf/Dpotrf/Dtrtrs/...) reaches a branch, field or return, and no driver returns success on the path where a callee failed; ARGS.order/.lencheck/.complete — arguments are validated before any operand write, every slice use is preceded by a branch on its length, every int/flag/slice parameter is validated; STRIDE — no operand is addressed with another operand's leading dimension, so results cannot depend on which matrix's ld was used; a strided vector handed on to BLAS keeps its own increment (STRIDE.vecinc); a workspace block is used with one leading dimension throughout a routine and the region laid out after it starts that many rows further (STRIDE.workld/.worknext); FLAG.trans on the routines that accept ConjTrans; GUARD.operand — a call-only block guarded by `count > 0` on an integer parameter (ncvt/nru/ncc in Dbdsqr, 24 blocks) passes that count to every call in it, so the update of one optional operand is not guarded by the count of another; FLAG.uplomap — where a blas.Uplo flag is translated into another triangle-distinguishing enumeration (lapack.UpperTri/LowerTri) the branch for Upper names the Upper constant; OKFLOW.loopstatus — a status assigned inside a loop is read before the next iteration overwrites it (a blocked driver that keeps only the last panel's status); FACTKIND.pair — the Householder reflectors (a, tau) left by a QR, RQ, LQ or QL factorization routine reach only the multiply/generate routines of the same family (reaching producers on the CFG; found and repaired: Dggsvp3 applied the reflectors of Dgerq2 with Dorm2r, so mat.GSVD of a 2x5 pair panicked); LOOPIDX.origin — the key of a range over a local reslice base[lo:hi] is not used bare to index base (found and repaired in the same routine); WORKSIZE.min/.set — on every path that returns in query mode the value stored to work[0] is proved (path-wise symbolic interpretation of the prologue in a max/min-of-polynomials normal form, block sizes and nested query answers >= 1, zero/positive facts from the quick-return tests) to be at least the minimum lwork the same routine enforces with panic(badLWork), so a caller passing the queried length is never rejected; WORKSIZE.querylen — no operand length panic is reachable in query mode, the drivers query their subroutines with nil operands (found and repaired: the quick-return answers of nine routines and Dsyev's missing store). " + what,
+		explanation: "Decides structural necessary conditions of " + self + " on the lapack/gonum routines anchored by it (and shared auxiliaries), for every path and both workspace modes: ARGS.query — with lwork == -1 the only stores are to work[0] and the only calls are queries/scalar helpers ('a workspace query touches nothing else'); OKFLOW.use/.report — the ok/unconverged status of every callee (a singular pivot from Dgetrf/Dpotrf/Dtrtrs/...) reaches a branch, field or return, and no driver returns success on the path where a callee failed; ARGS.order/.lencheck/.complete — arguments are validated before any operand write, every slice use is preceded by a branch on its length, every int/flag/slice parameter is validated; STRIDE — no operand is addressed with another operand's leading dimension, so results cannot depend on which matrix's ld was used; a strided vector handed on to BLAS keeps its own increment (STRIDE.vecinc); a workspace block is used with one leading dimension throughout a routine and the region laid out after it starts that many rows further (STRIDE.workld/.worknext); FLAG.trans on the routines that accept ConjTrans; GUARD.operand — a call-only block guarded by `count > 0` on an integer parameter (ncvt/nru/ncc in Dbdsqr, 24 blocks) passes that count to every call in it, so the update of one optional operand is not guarded by the count of another; FLAG.uplomap — where a blas.Uplo flag is translated into another triangle-distinguishing enumeration (lapack.UpperTri/LowerTri) the branch for Upper names the Upper constant; OKFLOW.loopstatus — a status assigned inside a loop is read before the next iteration overwrites it (a blocked driver that keeps only the last panel's status); FACTKIND.pair — the Householder reflectors (a, tau) left by a QR, RQ, LQ or QL factorization routine reach only the multiply/generate routines of the same family (reaching producers on the CFG; found and repaired: Dggsvp3 applied the reflectors of Dgerq2 with Dorm2r, so mat.GSVD of a 2x5 pair panicked); LOOPIDX.origin — the key of a range over a local reslice base[lo:hi] is not used bare to index base (found and repaired in the same routine); WORKSIZE.fallback — where the supplied workspace is too small for the optimal block size (`if lwork < A + B*nb`) the reduced block size is exactly nb = (lwork - A)/B, checked as a polynomial identity of numerator and divisor (13 fallbacks), so the blocked path neither overruns work nor makes a callee reject a workspace the routine accepted; WORKSIZE.min/.set — on every path that returns in query mode the value stored to work[0] is proved (path-wise symbolic interpretation of the prologue in a max/min-of-polynomials normal form, block sizes and nested query answers >= 1, zero/positive facts from the quick-return tests) to be at least the minimum lwork the same routine enforces with panic(badLWork), so a caller passing the queried length is never rejected; WORKSIZE.querylen — no operand length panic is reachable in query mode, the drivers query their subroutines with nil operands (found and repaired: the quick-return answers of nine routines and Dsyev's missing store). " + what,
 		assumptions: commonAssumptions,
 		run: func(tier string, res *core.Result) {
 			sc := lapackScope(res, self, other)
@@ -234,6 +234,9 @@ func lapackProp(self, other, what string) *property {
 			fk.Floor("factorization_calls", 25)
 			fk.Floor("paired_consumers", 20)
 			res.Merge(fk)
+			fb := worksize.RunFallback(def, core.Scope{Patterns: []string{"./lapack/gonum"}, Files: sc.Files})
+			fb.Floor("fallbacks_verified", 3)
+			res.Merge(fb)
 			ws := worksize.Run(def, core.Scope{Patterns: []string{"./lapack/gonum"}, Files: sc.Files}, worksizeExempt)
 			ws.Floor("routines_with_enforced_minimum", 8)
 			ws.Floor("query_answers_proved_sufficient", 30)
@@ -676,6 +679,8 @@ func dump(argv []string) {
 		res = idindex.Run(def, core.Pkgs(argv[1:]...))
 	case "global":
 		res = globalx.Run(def, core.Pkgs(argv[1:]...), globalx.Options{})
+	case "fallback":
+		res = worksize.RunFallback(def, core.Pkgs(argv[1:]...))
 	case "arms":
 		res = worksize.RunArms(def, core.Pkgs(argv[1:]...))
 	case "worksize":
